@@ -118,6 +118,16 @@ fn handle_arg(t: &mut Tape, w: &World, right: u8, st: &mut Stats) -> String {
     }
 }
 
+/// the name under `scope::` that a script-implemented command uses for its own variables
+fn private_scope(invoked_as: &str) -> &str {
+    match invoked_as {
+        "cp_glob" => "glob_cp",
+        "chmod_glob" | "set_mode_glob" => "glob_chmod",
+        "printenv" => "print_env",
+        other => other,
+    }
+}
+
 fn q(v: &str) -> String {
     render_arg(v, false, false, false).0
 }
@@ -268,6 +278,11 @@ fn case(t: &mut Tape, st: &mut Stats) -> Verdict {
     }
     // collections
     script.push_str("ha = array a \"b c\" \"\" a\nhe = array\nhm = map\nhx = map_put ${hm} k1 v1\nhx = map_put ${hm} \"k 2\" \"\"\nhx = unset hx\nhme = map\nhs = set_new x y\nhse = set_new\nhr = array gone\nhrr = release ${hr}\nhrr = unset hrr\nhb = string_to_bytes \"héllo\"\n");
+    // one case in fifty: the caller already holds more than a thousand live collections
+    if t.chance(1, 50) {
+        script.push_str("bulk = range 0 1040\nfor bulk_i in ${bulk}\n    bulk_h = array x\nend\n");
+        st.class("caller-holds-over-1024-live-collections");
+    }
     let w = World {
         arrays: vec!["ha".into(), "he".into()],
         maps: vec!["hm".into(), "hme".into()],
@@ -281,8 +296,23 @@ fn case(t: &mut Tape, st: &mut Stats) -> Verdict {
     let mut invs: Vec<(String, String, Vec<String>)> = vec![]; // (context, line, unset names)
     let mut fn_id = 0;
     for i in 0..n {
-        let (line, unset_names) = invocation(t, &w, st);
-        let ctxk = *t.pick_ref(&["top", "top", "function", "for-loop", "if-block", "condition", "while-once", "repeated"]);
+        let (mut line, mut unset_names) = invocation(t, &w, st);
+        let mut ctxk = *t.pick_ref(&["top", "top", "function", "for-loop", "if-block", "condition", "while-once", "repeated"]);
+        // one invocation in ten: the caller has a variable of its own inside the command's private namespace, named like
+        // the wrapper's bookkeeping variable and holding one of the caller's collections. The variable itself is the
+        // command's to clear; the caller's collection is not.
+        if t.chance(1, 10) {
+            let word = line.split(' ').next().unwrap_or("").to_string();
+            let sc = private_scope(&word).to_string();
+            if t.flip() {
+                // called without arguments
+                line = word.clone();
+                unset_names = vec![];
+            }
+            ctxk = "top";
+            script.push_str(&format!("scope::{}::arguments = set ${{{}}}\n", sc, t.pick(&["ha", "hm", "hs"])));
+            st.class("caller-variable-named-like-the-wrappers-bookkeeping");
+        }
         let is_unset = !unset_names.is_empty() || line.starts_with("unset");
         st.class(&format!("context-{}", ctxk));
         let pre = format!("snap pre {}", i);
@@ -356,6 +386,10 @@ fn case(t: &mut Tape, st: &mut Stats) -> Verdict {
             expected.remove(nme);
         }
         let mut got = b.vars.clone();
+        // the private namespaces of the script-implemented commands are theirs to clear (a command may call others)
+        let private: Vec<String> = COMMANDS.iter().map(|c| format!("scope::{}::", private_scope(c))).collect();
+        expected.retain(|k, _| !private.iter().any(|p| k.starts_with(p)));
+        got.retain(|k, _| !private.iter().any(|p| k.starts_with(p)));
         let o = got.remove("o");
         expected.remove("o");
         // variables the wrapping constructs themselves maintain
@@ -414,9 +448,10 @@ fn probe_c09_class() -> Option<String> {
 pub fn property() -> Property {
     Property {
         id: "C19",
-        rule: "every command backed by a script.ds (list cross-checked against /repo at start-up; wget excluded) invoked 1..10 times per case with valid, too few, too many, wrong-kind, released and unknown handles and special-character values, at top level, inside functions, for loops, while loops, if blocks, in condition position and twice in a row; the caller owns 0..8 variables with odd names (my::var, scope0, concat::x ...). A harness command snapshots the variables and the handle-table size right before and after every invocation. Invariant: variables after == variables before except the output variable and the documented effect of unset; no scope:: variable remains; the handle table grows by exactly 1 iff the command returned a new collection handle, else 0; the run never ends with the wrapper's 'Memory leak detected' crash. Non-trivial: an invocation that reports false/error or runs inside another construct; distinct by script",
+        rule: "every command backed by a script.ds (list cross-checked against /repo at start-up; wget excluded) invoked 1..10 times per case with valid, too few, too many, wrong-kind, released and unknown handles and special-character values, at top level, inside functions, for loops, while loops, if blocks, in condition position and twice in a row; the caller owns 0..8 variables with odd names (my::var, scope0, concat::x ...), in one case in fifty more than a thousand live collections, and before one invocation in ten a variable named like the wrapper's bookkeeping variable (scope::<command>::arguments) that holds one of the caller's collections (the invocation then often has no arguments). A harness command snapshots the variables and the handle-table size right before and after every invocation. Invariant: variables after == variables before except the output variable and the documented effect of unset; no scope:: variable remains; the handle table grows by exactly 1 iff the command returned a new collection handle, else 0; the run never ends with the wrapper's 'Memory leak detected' crash. Non-trivial: an invocation that reports false/error or runs inside another construct; distinct by script",
         assumptions: &[
             "argument values come from outside the C09 known classes (the scripts evaluate some arguments through if/not wrappers)",
+            "variables inside the private namespace scope::<command>:: of a script-implemented command are that command's to clear: they are left out of the comparison of caller variables (collections they name are not)",
             "file-touching script commands only receive paths inside the case's scratch directory",
         ],
         sections: vec![Section {
@@ -426,7 +461,7 @@ pub fn property() -> Property {
                 Tier::Thorough => Plan::Random { cases: 2_000_000, max_len: 400 },
             },
             case,
-            min_classes: &[("wrong-handle-kind", 1000), ("released-handle", 500), ("too-few-arguments", 1000), ("context-function", 2000), ("context-condition", 2000), ("cmd-cp_glob", 1000), ("cmd-array_concat", 1000), ("caller-variable-in-sibling-scope", 3000)],
+            min_classes: &[("wrong-handle-kind", 1000), ("released-handle", 500), ("too-few-arguments", 1000), ("context-function", 2000), ("context-condition", 2000), ("cmd-cp_glob", 1000), ("cmd-array_concat", 1000), ("caller-variable-in-sibling-scope", 3000), ("caller-holds-over-1024-live-collections", 500), ("caller-variable-named-like-the-wrappers-bookkeeping", 5000)],
         }],
         probes: vec![Probe { signature: "C19/argument-of-a-C09-value-class", run: probe_c09_class }],
     }
